@@ -68,6 +68,37 @@ fn strategy() -> BoxedStrategy<Case> {
         .boxed()
 }
 
+/// Decoder for the coverage-guided campaign (fuzz target fz_hist).
+pub fn case_from_bytes(data: &[u8]) -> Case {
+    let mut r = crate::gen::ByteReader::new(data);
+    let pieces = 2 + r.below(19);
+    let piece_len = match r.below(4) {
+        0 => 1,
+        1 | 2 => 1 + r.below(40),
+        _ => 20000,
+    };
+    let seed = r.u16() as u64;
+    let mut ops = vec![];
+    while !r.done() && ops.len() < 90 {
+        let op = match r.below(24) {
+            0 => Op::SupplierJoin,
+            1..=8 => Op::Deliver(r.ix()),
+            9 => Op::DeliverCorrupt(r.ix()),
+            10 | 11 => Op::ObserverJoin { outgoing: r.bool(), with_delivery: r.bool() },
+            12 => Op::ObserverJoinSilent,
+            13 | 14 => Op::ObsHandshake(r.ix()),
+            15 | 16 => Op::ObsChoke(r.ix()),
+            17 | 18 => Op::ObsUnchoke(r.ix()),
+            19 => Op::ObsDisconnect(r.ix()),
+            20 => Op::SupChoke(r.ix()),
+            21 | 22 => Op::SupUnchoke(r.ix()),
+            _ => Op::SupHave(r.ix(), r.ix()),
+        };
+        ops.push(op);
+    }
+    Case { pieces: if piece_len > 1000 { pieces.min(5) } else { pieces }, piece_len, ops, seed }
+}
+
 struct Obs {
     p: usize,
     /// position in w.cmds of the Init the manager served for this observer
@@ -87,6 +118,11 @@ pub fn check(c: &Case) -> Outcome {
     let geo = Geometry::single(c.piece_len, c.pieces * c.piece_len, c.seed);
     let n = geo.pieces_num();
     let t = Torrent::new(geo);
+    if c.seed % 4 == 1 {
+        // a restart: damaged piece files of an earlier run are in the directory
+        t.write_damaged_leftovers(c.seed);
+        o.class("damaged-leftover-piece-files");
+    }
     let c2 = c.clone();
     let t2 = t.clone();
     let res = swarm::run(c.seed, &t, move |w: &mut World| {
@@ -380,7 +416,7 @@ pub fn check(c: &Case) -> Outcome {
 pub fn def() -> PropDef {
     PropDef {
         id: "C11",
-        rule: "one or two supplier peers deliver single-block pieces (2-20 pieces of 1-40 bytes, or 20000-byte two-block pieces) at generated points of a global schedule of up to 60 ops, some deliveries corrupt, suppliers may choke the client in the middle of a piece and unchoke it later; up to three observer connections (incoming or outgoing; outgoing ones may send their own handshake much later than the client's) handshake at generated points - also in the same barrier as a delivery - and choke / unchoke the client at generated points; at the end every observer unchokes. The harness knows A(t), the completion order the manager has handled (every command passes through the stepper), and D(t), the pieces verified on disk. Oracle: an observer's bitfield satisfies A(at its Init) <= bits <= D, spare bits zero; every Have(i) has i in D at the barrier it is read; for each observer the Haves for pieces completed after its Init arrive exactly in completion order, and whenever the observer is not choking the client none is missing. Non-trivial = an observer handshake after at least one and before the last completion, and a completion while that observer chokes the client; distinct by hash of the case.",
+        rule: "(in a quarter of the cases damaged piece files of an earlier run - right name and length, zeroed tail - lie in the download directory: a restart) one or two supplier peers deliver single-block pieces (2-20 pieces of 1-40 bytes, or 20000-byte two-block pieces) at generated points of a global schedule of up to 60 ops, some deliveries corrupt, suppliers may choke the client in the middle of a piece and unchoke it later; up to three observer connections (incoming or outgoing; outgoing ones may send their own handshake much later than the client's) handshake at generated points - also in the same barrier as a delivery - and choke / unchoke the client at generated points; at the end every observer unchokes. The harness knows A(t), the completion order the manager has handled (every command passes through the stepper), and D(t), the pieces verified on disk. Oracle: an observer's bitfield satisfies A(at its Init) <= bits <= D, spare bits zero; every Have(i) has i in D at the barrier it is read; for each observer the Haves for pieces completed after its Init arrive exactly in completion order, and whenever the observer is not choking the client none is missing. Non-trivial = an observer handshake after at least one and before the last completion, and a completion while that observer chokes the client; distinct by hash of the case.",
         assumptions: &[
             "fewer than 32 completions happen between two barriers of any connection task (each completion has its own barrier, also in the long runs of 100-200 completions) (the broadcast channel holds 32 commands; lagging receivers are a capacity question the property does not speak about)",
             "D is sampled at barriers; a bitfield is compared with D at the end of the barrier in which it was read (D is monotone)",
@@ -390,7 +426,7 @@ pub fn def() -> PropDef {
             cases: |t| t.pick(12_000, 150_000),
             run: |ctx| run_proptest(ctx, "announcements", strategy(), check),
             replay: |v| replay_case::<Case>(v, check),
-            min_class: &[("observer-handshake-between-completions", 0.3), ("completion-while-observer-chokes", 0.3), ("observer-bitfield-checked", 0.4288), ("handshake-and-delivery-in-same-barrier", 0.2), ("corrupt-completion", 0.2), ("outgoing-observer-handshakes-late", 0.1), ("supplier-chokes-mid-piece", 0.1), (">=100-completions-while-an-observer-chokes", 0.003)],
+            min_class: &[("observer-handshake-between-completions", 0.3), ("completion-while-observer-chokes", 0.3), ("observer-bitfield-checked", 0.4288), ("handshake-and-delivery-in-same-barrier", 0.2), ("corrupt-completion", 0.2), ("outgoing-observer-handshakes-late", 0.1), ("supplier-chokes-mid-piece", 0.1), (">=100-completions-while-an-observer-chokes", 0.003), ("damaged-leftover-piece-files", 0.1)],
         }],
     }
 }
